@@ -138,14 +138,21 @@ BestFails(e) ==
               THEN {<<"C16", "improvements-depend-on-history", D(<<s.cmd, g.line>>)>>} ELSE {})
    ELSE {})
 
+\* Output attribution.  The search thread of the PREVIOUS go may print one last info line after its deadline (it passed
+\* its clock test just before); under load that line can surface after the next go was written.  Such a line betrays
+\* itself: it reports more elapsed time than has passed since the current go was sent (a genuine line's `time` is
+\* measured from a start that is not earlier than the moment the driver stamped the go).  Foreign lines are not judged
+\* and not recorded for the current go.
+Foreign(e) == s.go.active /\ e.info.ok /\ e.info.time > (e.t - s.go.t) + 1
+
 OutFails(e) ==
-  CASE e.k = "info" -> (IF s.go.active THEN InfoFails(s.go, e.info) ELSE {})   \* a late line of the previous search: attributed by the driver's drain
+  CASE e.k = "info" -> (IF s.go.active /\ ~Foreign(e) THEN InfoFails(s.go, e.info) ELSE {})
     [] e.k = "bestmove" -> BestFails(e)
     [] e.k = "readyok" -> {}
     [] OTHER -> {}
 
 OutStep(e) ==
-  CASE e.k = "info" -> IF s.go.active /\ e.info.ok THEN [s EXCEPT !.go.infos = Append(@, e.info)] ELSE s
+  CASE e.k = "info" -> IF s.go.active /\ e.info.ok /\ ~Foreign(e) THEN [s EXCEPT !.go.infos = Append(@, e.info)] ELSE s
     [] e.k = "bestmove" ->
          IF ~s.go.active THEN s
          ELSE LET ms == {m \in s.go.legal : MoveText(m) = e.move} IN
@@ -279,13 +286,14 @@ Step(e) ==
     [] OTHER -> s
 
 ZeroCnt == [resets |-> 0, ins |-> 0, gos |-> 0, bestmoves |-> 0, infos |-> 0, readyoks |-> 0, exits |-> 0, slices |-> 0,
-            posdumps |-> 0, terminal_gos |-> 0, probes |-> 0, hook_events |-> 0, hook_recvs |-> 0]
+            posdumps |-> 0, terminal_gos |-> 0, probes |-> 0, hook_events |-> 0, hook_recvs |-> 0, foreign_lines |-> 0]
 Count(c, e) ==
   CASE e.ev = "reset" -> [c EXCEPT !.resets = @ + 1]
     [] e.ev = "in" -> [c EXCEPT !.ins = @ + 1, !.gos = @ + (IF Has(e, "go") THEN 1 ELSE 0),
                                 !.terminal_gos = @ + (IF Has(e, "go") /\ Legal(s.pos) = {} THEN 1 ELSE 0),
                                 !.probes = @ + (IF Has(e, "probe") THEN 1 ELSE 0)]
     [] e.ev = "out" -> [c EXCEPT !.bestmoves = @ + (IF e.k = "bestmove" THEN 1 ELSE 0), !.infos = @ + (IF e.k = "info" THEN 1 ELSE 0),
+                                 !.foreign_lines = @ + (IF e.k = "info" /\ Foreign(e) THEN 1 ELSE 0),
                                  !.readyoks = @ + (IF e.k = "readyok" THEN 1 ELSE 0)]
     [] e.ev = "exit" -> [c EXCEPT !.exits = @ + 1]
     [] e.ev = "slice" -> [c EXCEPT !.slices = @ + 1]
